@@ -340,7 +340,12 @@ def render_files(ff, file_order=None, item_orders=None):
         is_itp = all((it[0] == "block" and ff["blocks"][it[1]].get("itp")) or it[0] == "multires" for it in items)
         ext = "itp" if is_itp else "ff"
         fname = f"d{fi}/defs.{ext}" if ff.get("same_names") else f"ff{fi}.{ext}"
-        out.append((fname, "\n".join(render_item(ff, it) for it in items)))
+        text = "\n".join(render_item(ff, it) for it in items)
+        if ff.get("cites") and ext == "ff":
+            # force-field wide citation keys (as at the top of the shipped library files); whether an entry for a key
+            # is known depends on the .bib files read by THIS call only
+            text = "[ citations ]\n" + "\n".join(ff["cites"]) + "\n\n" + text
+        out.append((fname, text))
     return out
 
 
